@@ -242,6 +242,12 @@ def run_frac(c):
         obj = V.DataStream(**kw); streams = [obj]
     for s in streams:
         s.add_signal(lambda ts: 1j * ts)
+    # a custom source registered k times on a stream is summed in k times (the same function object each time)
+    dup = c.get("dup", 0)
+    half = lambda ts: ts * 0.0 + 0.5
+    for s in streams:
+        for _ in range(dup):
+            s.add_signal(half)
     clock = Fraction(c["t0_8"], 8)
     fails = []
     for k, op in enumerate(c["ops"]):
@@ -250,6 +256,9 @@ def run_frac(c):
             rows = [np.asarray(v[0][p]) for p in range(2)] if c["antenna"] else [np.asarray(v)]
             want = np.array([float((clock + i) / Fraction(sr)) for i in range(op[1])])
             for p, row in enumerate(rows):
+                if not np.array_equal(np.real(row), np.full(op[1], 0.5 * dup)):
+                    fails.append(["custom-source-dropped", "a real custom source registered %d times on the stream contributes %r per sample instead of %r" % (dup, float(np.real(row)[0]), 0.5 * dup)])
+                    return dict(fails=fails)
                 if not np.array_equal(np.imag(row), want):
                     fails.append(["clock-fraction", "op %d: request of %d samples evaluated from t = %r s, the clock stands at %r s (%s samples) after %s"
                                   % (k, op[1], float(np.imag(row)[0]), float(want[0]), clock, c["ops"][:k])])
